@@ -10,9 +10,14 @@ RTOL = ATOL = 1e-9
 # ------------------------------------------------------------------ calling the API
 
 
+DEFAULT_KW: dict = {}  # set by the C01/C02 children: user aggregation specs passed with every call
+
+
 def run_call(data, params, functions, targets=None, **kw):
     """Call the public API; return ("frame", df, warnings) or ("exc", class name, text)."""
     from gettsim import compute_taxes_and_transfers
+
+    kw = {**DEFAULT_KW, **kw}
 
     with warnings.catch_warnings(record=True) as w:
         warnings.simplefilter("always")
@@ -31,7 +36,10 @@ def full_graph(data, params, functions):
     if graph is None or res[0] != "frame" or not isinstance(functions, dict):
         return graph, res
     extra = []
-    for n in sorted(functions):
+    cand = sorted(functions)
+    for spec_kind in ("aggregate_by_group_specs", "aggregate_by_p_id_specs"):
+        cand += sorted(DEFAULT_KW.get(spec_kind, {}))
+    for n in cand:
         if n in graph["parents"]:
             continue
         r = run_call(data, params, functions, targets=[n])
